@@ -137,8 +137,19 @@ let spec_uis cap is_pool progs rets final =
    | _ -> ());
   !err
 
-let spec_ruis cap progs rets final =
+(* resv: (thread, cell, number of returns logged before the access) of every successful acquire cell CAS of the
+   execution (from the case header, computed by the harness from its own access log): that cell is taken from the
+   access on -- until the acquire's own episode takes over when it returns Ok, for good when it returns IsLocked
+   (the code does not roll the cell back) -- whatever the acquire finally answers *)
+let spec_ruis cap progs resv rets final =
   let (eps, recs) = build true progs rets in
+  (* end of a reservation: the return of the acquire that made it (first return of that thread at or after it) *)
+  let resv = List.map (fun (t, idx, k) ->
+    let fin = List.fold_left (fun acc r -> if r.t = t && r.p >= k && acc = None then Some r else acc) None recs in
+    let stop = (match fin with Some r when r.tag = 1 -> r.p | _ -> inf) in
+    (idx, k - 1, stop)) resv in
+  let resv_at q = List.filter_map (fun (idx, a, b) -> if a <= q && q <= b then Some idx else None) resv in
+  let resv_meets lo hi = List.filter_map (fun (idx, a, b) -> if a <= hi && lo <= b then Some idx else None) resv in
   let err = ref None in
   let fail m = if !err = None then err := Some m in
   let is_locker r = (not r.panic) && (match r.op with Rel (true, _) -> r.tag = 2 && r.pay = 1 | Rec (_, _) -> r.tag = 5 && r.pay land 1 = 1 | _ -> false) in
@@ -182,7 +193,7 @@ let spec_ruis cap progs rets final =
       end else if r.tag = 0 && r.pay = 0 then begin
         let ok = ref false in
         for q = r.start to r.p do
-          let taken = List.sort_uniq compare (List.filter_map (fun e -> if covers e q then Some e.idx else None) eps) in
+          let taken = List.sort_uniq compare (resv_at q @ List.filter_map (fun e -> if covers e q then Some e.idx else None) eps) in
           if List.length taken >= cap then ok := true
         done;
         if not !ok then fail (Printf.sprintf "thread %d: OutOfIndices although at no instant of the call all %d indices were taken" r.t cap)
@@ -198,12 +209,12 @@ let spec_ruis cap progs rets final =
         List.iter (fun e -> if (not (is_own r e)) && def_covers e r.start r.p then
           fail (Printf.sprintf "thread %d: lock succeeded while index %d is owned by thread %d for the whole call" r.t e.idx e.th)) eps
       end else if lock then begin
-        if not (List.exists (fun e -> (not (is_own r e)) && poss_meets e r.start r.p) eps) then
+        if not (List.exists (fun e -> (not (is_own r e)) && poss_meets e r.start r.p) eps) && resv_meets r.start r.p = [] then
           fail (Printf.sprintf "thread %d: release(LockIfLastIndex) returned Unlocked although no other index was taken during the call" r.t)
       end
     | Bor ->
       let lo = List.length (List.filter (fun e -> def_covers e r.start r.p) eps) in
-      let hi = List.length (List.sort_uniq compare (List.filter_map (fun e -> if poss_meets e r.start r.p then Some e.idx else None) eps)) in
+      let hi = List.length (List.sort_uniq compare (resv_meets r.start r.p @ List.filter_map (fun e -> if poss_meets e r.start r.p then Some e.idx else None) eps)) in
       if r.tag <> 3 then fail "unexpected borrowed_indices result"
       else if not ((lo <= r.pay && r.pay <= hi) || (r.pay = 0 && lock_lo <= r.p)) then
         fail (Printf.sprintf "thread %d: borrowed_indices = %d outside [%d, %d]" r.t r.pay lo hi)
@@ -382,7 +393,14 @@ let mk_sys toks =
           let cellss = List.map (fun v -> let s = u64_string_of_n v in if s = "18446744073709551615" then "e" else s) g.cells in
           let m = (if locked then "1" else "0") :: (if locked then [] else cellss) in
           if m = toks then None else Some (Printf.sprintf "model final [%s] impl final [%s]" (sconcat m) (sconcat toks)));
-        spec = (fun rets final -> spec_ruis capi aprogs rets final) }
+        spec = (fun rets final ->
+          let resv = (match toks with
+            | _ :: _ :: _ :: _ :: r :: _ when r <> "-" ->
+              List.map (fun x -> match String.split_on_char ':' x with
+                | [t; i; k] -> (int_of_string t, int_of_string i, int_of_string k)
+                | _ -> failwith "bad reservation token") (split_on ',' r)
+            | _ -> []) in
+          spec_ruis capi aprogs resv rets final) }
     end else failwith "unknown kind"
   | _ -> failwith "unknown case header"
 
